@@ -5,7 +5,7 @@ use ntex_codec::{Decoder, Encoder};
 
 use crate::error::{DecodeError, EncodeError};
 use crate::types::{FixedHeader, QoS, packet_type};
-use crate::utils::decode_variable_length;
+use crate::utils::{decode_variable_length, truncate_pages};
 
 use super::{Decoded, Encoded, Publish, decode, encode};
 
@@ -196,6 +196,14 @@ impl Encoder for Codec {
     type Error = EncodeError;
 
     fn encodev(&self, item: Self::Item, dst: &mut BytePages) -> Result<(), EncodeError> {
+        // a failed encode must not leave a partial frame behind
+        let len = dst.len();
+        self.encode_item(item, dst).inspect_err(|_| truncate_pages(dst, len))
+    }
+}
+
+impl Codec {
+    fn encode_item(&self, item: Encoded, dst: &mut BytePages) -> Result<(), EncodeError> {
         match item {
             Encoded::Packet(pkt) => {
                 let content_size = encode::get_encoded_size(&pkt);
